@@ -10,7 +10,7 @@ open Driver ScionTime.Time64 ScionTime.Server
   srv.utx <id> <rxt> <txt1>                   -> ok txt=<ns> | <snap>
   srv.bulk <n> <idbase> <base> <step> <d>     -> ok n=<n>     (closed-form state; store must be empty)
   srv.bulkcheck <n> <idbase> <base> <step> <d> -> ok equal|differ  (closed form vs replay through handleRequest)
-  srv.digest                                  -> ok n=<len> hn=<heap len> d=<h1>.<h2>
+  srv.digest                                  -> ok n=<len> hn=<heap len> d=<hk>.<s1>.<s2>
   snap (full)  : n=<len> h=[k,..] items=<id>:<qidx>:<qval>:<rx>/<tx>,..;..   (items sorted by id)
   snap (brief) : n=<len> hn=<heap len> top=<id|-> it=<item of the op's id|->
 -/
@@ -46,7 +46,7 @@ def bulkState (n idbase : Nat) (base step d : Int) : State :=
   let mk (i : Nat) : Nat × Item :=
     let rxt : Int := base + (i : Int) * step
     (idbase + i, { buf := [⟨ofTime rxt, ofTime (rxt + d), idbase + i⟩], qval := ofTime rxt, qidx := i })
-  { items := (List.range n).foldl (fun acc i => mk i :: acc) []
+  { items := (List.range n).map mk   -- oldest first (the order of an association list is not observable)
     heap := Array.ofFn (n := n) (fun i => idbase + i.val) }
 
 def bulkReplay (n idbase : Nat) (base step d : Int) : State :=
@@ -56,22 +56,19 @@ def bulkReplay (n idbase : Nat) (base step d : Int) : State :=
 
 def hashStep (p : Nat) (h v : Nat) : Nat := (h * p + v) % 2147483647
 
+/-- digest of the store, linear time: `hk` = polynomial hash of the heap's key array in
+    order; `s1`,`s2` = order-independent sums over all items of a mix of
+    (id, qidx, qval, len) and of its square (mod 2^31-1). -/
 def digest (st : State) : String :=
-  let go (p : Nat) : Nat := Id.run do
-    let mut h := 0
-    let mut i := 0
-    for k in st.heap do
-      let (qi, qvl, ln) := match st.items.find k with
-        | some it => (it.qidx, it.qval, it.buf.length)
-        | none => (4000000000, zero64, 0)
-      h := hashStep p h k
-      h := hashStep p h qi
-      h := hashStep p h qvl.sec.toNat
-      h := hashStep p h qvl.frac.toNat
-      h := hashStep p h ln
-      i := i + 1
-    return h
-  s!"n={st.items.length} hn={st.heap.size} d={go 1000003}.{go 7919}"
+  let m := 2147483647
+  let hk := st.heap.foldl (fun h k => hashStep 1000003 h k) 0
+  let mix (k : Nat) (it : Item) : Nat :=
+    hashStep 7919 (hashStep 7919 (hashStep 7919 (hashStep 7919 (hashStep 7919 1 k) it.qidx)
+      it.qval.sec.toNat) it.qval.frac.toNat) it.buf.length
+  let (s1, s2) := st.items.foldl (fun (acc : Nat × Nat) (p : Nat × Item) =>
+    let g := mix p.1 p.2
+    ((acc.1 + g) % m, (acc.2 + g * g % m) % m)) (0, 0)
+  s!"n={st.items.length} hn={st.heap.size} d={hk}.{s1}.{s2}"
 
 def step (d : DS) (toks : List String) : DS × String :=
   match toks with
@@ -79,10 +76,7 @@ def step (d : DS) (toks : List String) : DS × String :=
   | ["srv.mode", "full"] => ({ d with brief := false }, "ok")
   | ["srv.mode", "brief"] => ({ d with brief := true }, "ok")
   | ["srv.digest"] =>
-    if d.st.heap.size > 4096 then
-      -- large store: positions are checked through the closed-form order of ids
-      (d, "ok " ++ digest d.st)
-    else (d, "ok " ++ digest d.st)
+    (d, "ok " ++ digest d.st)
   | ["srv.hr", id, os, of, rs, rf, ts, tf, rxt, now] =>
     match parseNat? id, parseInt? os, parseInt? of, parseInt? rs, parseInt? rf,
           parseInt? ts, parseInt? tf, parseInt? rxt, parseInt? now with
@@ -109,7 +103,8 @@ def step (d : DS) (toks : List String) : DS × String :=
       else if op = "srv.bulkcheck" then
         let a := bulkState n idbase base stp dd
         let b := bulkReplay n idbase base stp dd
-        let eq := a.items == b.items && a.heap == b.heap
+        let srt (m : Map) := m.mergeSort (fun x y => x.1 ≤ y.1)
+        let eq := srt a.items == srt b.items && a.heap == b.heap
         ({ d with st := a }, if eq then "ok equal" else "ok differ")
       else (d, "bad-op")
     | _, _, _, _, _ => (d, "bad-op")
